@@ -201,12 +201,12 @@ def text_cases(ck, alphabets, maxlen, timeout=1500):
 
 @check("C05")
 def c05(ck):
-    ck.rule = ("every string of length <= MaxLen over 5 alphabets of 14 characters that exercise every scanner/reader "
+    ck.rule = ("every string of length <= MaxLen over 6 alphabets of 14 characters/fragments that exercise every scanner/reader "
                "branch (brackets, reader macros, string/raw-string quotes, escapes, U+029E, comments, placeholders, "
-               "constructors, numbers), classified by Text.tla; each sent to READ (nil/loaded env, with/without "
+               "constructors, numbers, module-header and preamble lines), classified by Text.tla; each sent to READ (nil/loaded env, with/without "
                "module), READWithPreamble, Read_str (nil/empty/populated placeholder map), read-string, then PRINT; "
                "violation = panic or hang; distinct = distinct texts")
-    alph = ["brackets", "strings", "macros", "escapes", "numbers"]
+    alph = ["brackets", "strings", "macros", "escapes", "numbers", "preamble"]
     cases = text_cases(ck, alph, 4 if ck.quick else 5)
     ck.replay(cases, args=["-prop", "C05"])
     ck.exhaustive = True
@@ -275,4 +275,20 @@ def c04(ck):
     rnd.shuffle(bad)
     sample = [dict(c, kind="astfuture", id="fut:" + c["id"]) for c in bad[:150 if q else 1500]]
     ck.replay_crashy(sample)
+    ck.exhaustive = True
+
+
+@check("C15")
+def c15(ck):
+    ck.rule = ("24 source templates (placeholder in code, quoted data, nested collections, twice, inside a string, inside "
+               "a comment, adjacent names, unknown name, source starting with blank / comment / preamble-looking line) x "
+               "assignments of 1 (and 2 in thorough) names out of 5 to a 30-value pool (strings with quotes, backslashes, "
+               "semicolons, brackets, newlines, JSON-looking single- and multi-line text, preamble-looking lines, "
+               "placeholder-named symbols and strings, nested collections); Text.ReadWith computes the substitution; an "
+               "implementation-shaped model of the line-oriented preamble flags the cases the design loses; real "
+               "READWithPreamble(AddPreamble(src,m)) and Read_str(src,m) must both equal the substitution")
+    r = gen_and_replay_keep(ck, "GenC15", {"TwoNames": "FALSE"})
+    if not ck.quick:
+        r += gen_and_replay_keep(ck, "GenC15", {"TwoNames": "TRUE"}, timeout=2400)
+    ck.extra["model_dangerous_cases"] = sum(1 for c, _ in r if c.get("danger"))
     ck.exhaustive = True
